@@ -62,6 +62,14 @@ Theorem C14_api_footprints_clean :
   explore funcs stores calls Effects.eff_param_stores_direct 3000 (map (fun f => (f, [])) entry_points) [] = true.
 Proof. vm_compute. reflexivity. Qed.
 
+(** ... which, by the soundness of that closure computation, means: EVERY (function, private pointer parameters) pair
+    reachable from an entry point through the call edges — with the private-parameter sets the call sites determine —
+    performs only private stores *)
+Theorem C14_every_reachable_store_is_private : forall it,
+  reaches funcs calls (map (fun f => (f, @nil nat)) entry_points) it ->
+  stores_ok funcs stores Effects.eff_param_stores_direct (fst it) (snd it) = true.
+Proof. exact (explore_covers funcs stores calls Effects.eff_param_stores_direct 3000 _ C14_api_footprints_clean). Qed.
+
 (** no closure assigns a captured variable; no goroutine is started; no
     package-level variable is assigned after its declaration *)
 Theorem C14_no_shared_state :
@@ -92,3 +100,4 @@ Print Assumptions C14_concurrent_password_sound.
 Print Assumptions C14_api_footprints_clean.
 Print Assumptions C14_no_shared_state.
 Print Assumptions C14_receivers_by_value.
+Print Assumptions C14_every_reachable_store_is_private.
